@@ -262,6 +262,25 @@ def generate(tier, seed, ctx):
                 # l = 0 is inside the quantifier: Y = r_hat / sqrt(4 pi), Psi = 0
                 R.append("c17.vshY %d %d %s %s" % (l, m, hx(th), hx(ph)))
                 R.append("c17.vshPsi %d %d %s %s" % (l, m, hx(th), hx(ph)))
+    # class D: no history at all (calls made before main(), during the static initialisation of another translation
+    # unit), and several results of the vector harmonics alive at the same time
+    R.append("c17.premain")
+    for k in range(120 if thorough else 40):
+        kind = "Y" if k % 2 == 0 else "Psi"
+        l = rng.randint(0 if kind == "Y" else 1, LMAX)
+        m = rng.randint(-l, l)
+        trip = []
+        for j in range(3):
+            c = rng.random()
+            if j == 0 or c < 0.34:
+                lj, mj = l, m                      # same (l,m), another direction
+            elif c < 0.67:
+                lj, mj = l, -m                     # the partner of the conjugation identity
+            else:
+                lj = rng.randint(1, LMAX); mj = rng.randint(-lj, lj)
+            nm, th, ph = rng.choice(DIR_SPECIAL) if rng.random() < 0.25 else ("rnd", rng.uniform(0.01, math.pi - 0.01), rng.uniform(0, 2 * math.pi))
+            trip.append("%d %d %s %s" % (lj, mj, hx(th), hx(ph)))
+        R.append("c17.vshhold %s %s" % (kind, " ".join(trip)))
     ctx["round_results"] = []
     ctx["worst"] = {}
     return R
@@ -476,6 +495,10 @@ def compare(rq, impl, model, ctx):
                         out.append(fail("corr", "Erfi differs from the model 2/sqrt(pi) exp(x^2) Dawson(x)", "Erfi(%r)=%r model %s" % (x, v, M.nstr(mm, 17))))
             ctx["nontrivial"].add((op, int(abs(x)), x < 0))
         return out
+    if op == "c17.premain":
+        return cmp_premain(ti, ctx)
+    if op == "c17.vshhold":
+        return cmp_hold(a, ti, ctx)
     if op == "c17.inverfscan":
         return scan_inverf(a, ti, ctx)
     if op == "c17.dawscan":
@@ -578,6 +601,53 @@ def compare(rq, impl, model, ctx):
                 l, m, th, ph, vec, [M.nstr(r, 10) for r in ref])))
         return out
     return [fail("corr", "unknown op " + op)]
+
+
+def cmp_premain(ti, ctx):
+    """values computed before main() (two initialisation priorities) against the same calls from main(): bit for bit"""
+    out = []
+    n, n1, n2 = int(ti[0]), int(ti[1]), int(ti[2])
+    if n == 0 or n1 != n or n2 != n:
+        return [fail("corr", "pre-main probe did not run completely", "%d %d %d" % (n, n1, n2))]
+    bad = []
+    for i in range(n):
+        name, now, early, dflt = ti[3 + 4 * i:7 + 4 * i]
+        for when, v in (("init_priority(101)", early), ("the default priority, before the library's translation units", dflt)):
+            if v != now:
+                bad.append((name, when, v, now))
+        ctx["nontrivial"].add(("premain", name.split("(")[0]))
+    bump(ctx, "premain values", n)
+    if bad:
+        name, when, v, now = bad[0]
+        out.append(fail("prop", "a function evaluated before main() (during the static initialisation of another translation unit) "
+                                "differs from the same call made from main()",
+                        "%d of %d probes differ; first: %s = %s (%r) from a namespace-scope constructor with %s, %s (%r) from main()" % (
+                            len(bad), 2 * n, name, v, fl(v), when, now, fl(now))))
+    return out
+
+
+def cmp_hold(a, ti, ctx):
+    """three results held simultaneously by const reference, and two calls inside one expression, against copies"""
+    out = []
+    vecs, i = [], 0
+    for _ in range(6):
+        k = int(ti[i])
+        vecs.append(ti[i + 1:i + 1 + 2 * k])
+        i += 1 + 2 * k
+    h_copy, h_expr = ti[i:i + 2], ti[i + 2:i + 4]
+    fn = "Vector_Spherical_Harmonics_" + a[0]
+    calls = ["%s(%s,%s,%r,%r)" % (fn, a[1 + 4 * j], a[2 + 4 * j], fl(a[3 + 4 * j]), fl(a[4 + 4 * j])) for j in range(3)]
+    for j in range(3):
+        if vecs[3 + j] != vecs[j]:
+            later = ", ".join(calls[j + 1:]) or "-"
+            out.append(fail("prop", "a result of %s held by const reference changes when the function is called again (results alive at the same time alias)" % fn,
+                            "%s read after the later call(s) %s: %s, copied at once: %s" % (calls[j], later, [fl(t) for t in vecs[3 + j]], [fl(t) for t in vecs[j]])))
+            break
+    if h_copy != h_expr:
+        out.append(fail("prop", "two calls of %s as arguments of one expression alias" % fn,
+                        "<%s | %s> = %r in one expression, %r from copies" % (calls[0], calls[1], cplx(h_expr)[0], cplx(h_copy)[0])))
+    ctx["nontrivial"].add(("vshhold", a[0], min(int(a[1]), 3)))
+    return out
 
 
 def scan_inverf(a, ti, ctx):
